@@ -145,7 +145,7 @@ structure Obs where
   ra : List (Option Nat)
   roles : List RoleObs
   ex : List Nat
-  stateStr : String             -- everything between the tag and ` ev=`
+  stateStr : String             -- the persistent part: everything but the tag, `now=`, `xr=`, `ev=`
 
 def optList (s : String) : List (Option Nat) :=
   if s = "" ∨ s = "-" then [] else (s.splitOn ",").map String.toNat?
@@ -168,7 +168,7 @@ def parseObs (line : String) : Option Obs :=
       match t.splitOn ":" with
       | [r, b] => do parseBlock (← r.toNat?) b
       | _ => none)
-    let st := " ".intercalate (rest.filter (fun w => ¬ w.startsWith "ev=" ∧ ¬ w.startsWith "xr="))
+    let st := " ".intercalate (rest.filter (fun w => ¬ w.startsWith "ev=" ∧ ¬ w.startsWith "xr=" ∧ ¬ w.startsWith "now="))
     pure { ok := tag = "ok", admin := (← kv? rest "admin").toNat?, owner := (← kv? rest "owner").toNat?,
            ra, roles := base ++ extra, ex := natList ((kv? rest "ex").getD "-"), stateStr := st }
   | _ => none
@@ -230,6 +230,10 @@ def verdict (m : Mon) (auth : List Nat) (op : Op) (o : Obs) : Option String :=
       | .adm .guarded => if inAuth m.admin auth then some "site=ac.only_admin.refused the admin authorized but was refused" else none
       | .own .guarded => if inAuth m.owner auth then some "site=ac.only_owner.refused the owner authorized but was refused" else none
       | .onlyRole k r b => if m.g k r ∧ auth.contains k ∧ b then some "site=ac.only_role.refused a role holder authorized but was refused" else none
+      | .hasRole k r ba b => if m.g k r ∧ (¬ ba ∨ auth.contains k) ∧ b then some "site=ac.has_role.refused a role holder was refused by a #[has_role] function" else none
+      | .hasAnyRole k rs ba => if rs.any (fun r => m.g k r) ∧ (¬ ba ∨ auth.contains k) then some "site=ac.has_any_role.refused a role holder was refused by a #[has_any_role] function" else none
+      | .onlyAnyRole k rs => if rs.any (fun r => m.g k r) ∧ auth.contains k then some "site=ac.only_any_role.refused a role holder authorized but was refused" else none
+      | .ensureAdminOrRole r k => if mayAdminister m r k then some "site=ac.ensure_admin_or_role.refused the admin / a role-admin holder was refused" else none
       | _ => none
   else
     match op with
@@ -268,6 +272,12 @@ def verdict (m : Mon) (auth : List Nat) (op : Op) (o : Obs) : Option String :=
       else if ¬ auth.contains k then some "site=ac.only_any_role.no-auth an #[only_any_role] function ran without the caller authorizing" else none
     | .ensureAdminOrRole r k =>
       if ¬ mayAdminister m r k then some "site=ac.ensure_admin_or_role.unauthorized ensure_if_admin_or_admin_role passed for an account that is neither" else none
+    | .advance n =>
+      -- nothing that must persist (membership, indices, counts, role admins, existing roles,
+      -- admin, owner) may change while nobody touches the contract
+      if ¬ m.first ∧ o.stateStr ≠ m.stateStr then
+        some s!"site=ac.idle.lost persistent state changed by the mere passage of {n} ledgers: {m.stateStr} -> {o.stateStr}"
+      else none
     | _ => none
 
 def roleOfOp : Op → Option Nat
